@@ -2,6 +2,7 @@ package align
 
 import (
 	"fmt"
+	"math"
 	"unicode"
 )
 
@@ -361,6 +362,13 @@ func (a *pwaligner) backTrack() {
 	}
 }
 
+// sameScore tells whether two scores are equal up to rounding: the score of a gap is accumulated
+// extension by extension while the matrix is filled and recomputed at once while backtracking,
+// which gives different last bits when the penalties are not exact in binary (0.1, 0.3, ...)
+func sameScore(x, y float64) bool {
+	return math.Abs(x-y) <= 1e-9*math.Max(1, math.Max(math.Abs(x), math.Abs(y)))
+}
+
 func (a *pwaligner) backTrack_SW() {
 	var i, j, ngaps int
 	var seq1, seq2, alistr []uint8
@@ -383,7 +391,7 @@ func (a *pwaligner) backTrack_SW() {
 			for {
 				ngaps++
 				gapscore = a.matrix[i-ngaps][j] + a.gapopen + float64(ngaps-1)*a.gapextend
-				if gapscore == a.matrix[i][j] || i-ngaps == 0 {
+				if sameScore(gapscore, a.matrix[i][j]) || i-ngaps == 0 {
 					break
 				}
 			}
@@ -413,7 +421,7 @@ func (a *pwaligner) backTrack_SW() {
 			for {
 				ngaps++
 				gapscore = a.matrix[i][j-ngaps] + a.gapopen + float64(ngaps-1)*a.gapextend
-				if gapscore == a.matrix[i][j] || j-ngaps == 0 {
+				if sameScore(gapscore, a.matrix[i][j]) || j-ngaps == 0 {
 					break
 				}
 			}
